@@ -9,10 +9,15 @@ import random
 from . import core, passes, impl, render, execrun, project
 
 CONF = {
-    'struct': dict(quick=[('struct', ('H_E', 'M_E0', 'T_E', 'O_E', 3, 3), 5000), ('struct-macro', ('H_E', 'M_E1', 'T_E1', 'O_E', 2, 3), 2000)],
-                   thorough=[('struct', ('H_E', 'M_E0', 'T_E', 'O_E', 5, 4), 120000), ('struct-macro', ('H_E', 'M_E1', 'T_E1', 'O_E', 4, 3), 60000)]),
-    'gates': dict(quick=[('gates-wide', ('H_G', 'M_G', 'T_G', 'O_G', 3, 3, 'NoGates'), 4000),
-                         ('gates-deep', ('H_G', 'M_E0', 'T_G2', 'O_G2', 5, 2, 'NoGates'), 3000)],
+    'struct': dict(quick=[('struct', ('H_E', 'M_E0', 'T_E', 'O_E', 3, 3), 5000), ('struct-macro', ('H_E', 'M_E1', 'T_E1', 'O_E', 2, 3), 2000),
+                          ('brackets-deep', ('H_E', 'M_E0', 'T_PM', 'O_PM', 6, 4), 4000, (1500, 30)),
+                          ('struct-deep', ('H_E', 'M_E1', 'T_E1', 'O_E', 7, 4), 2500, (1000, 40))],
+                   thorough=[('struct', ('H_E', 'M_E0', 'T_E', 'O_E', 5, 4), 120000), ('struct-macro', ('H_E', 'M_E1', 'T_E1', 'O_E', 4, 3), 60000),
+                             ('brackets', ('H_E', 'M_E0', 'T_PM', 'O_PM', 6, 4), 150000),
+                             ('struct-deep', ('H_E', 'M_E1', 'T_E1', 'O_E', 9, 5), 60000, (20000, 50))]),
+    'gates': dict(quick=[('gates-wide', ('H_G', 'M_G', 'T_G', 'O_G', 3, 3, 'NoGates'), 3000),
+                         ('gates-deep', ('H_G', 'M_E0', 'T_G2', 'O_G2', 5, 2, 'NoGates'), 2000),
+                         ('gates-sim', ('H_G', 'M_G', 'T_G', 'O_G', 9, 4, 'NoGates'), 2500, (700, 40))],
                   thorough=[('gates-wide', ('H_G', 'M_G', 'T_G', 'O_G', 4, 3, 'NoGates'), 100000),
                             ('gates-deep', ('H_G', 'M_E0', 'T_G2', 'O_G2', 6, 2, 'NoGates'), 100000)]),
     'par': dict(quick=[('par', ('H_P', 'M_P', 'T_P', 'O_P', 4, 4, 'NoGates'), 6000)],
@@ -52,12 +57,22 @@ def exec_cfg(consts, invariants=('VisitsWellFormed',)):
     return s
 
 
-def enumerate_exec(rep, name, consts, wd, invariants):
-    res = core.run_tlc('ExecEnum', exec_cfg(consts, invariants), wd, timeout=3000)
-    rep.add_model_check('ExecEnum[%s] %s' % (name, ' '.join(invariants)), res)
+def enumerate_exec(rep, name, consts, wd, invariants, sim=None):
+    """exhaustive BFS, or (sim = (num, depth)) TLC's random simulation of the same machine for deep programs"""
+    if sim:
+        res = core.run_tlc('ExecEnum', exec_cfg(consts, invariants), wd, timeout=3000, workers=8,
+                           simulate='num=%d' % sim[0], depth=sim[1], tlc_seed=core.seed() + 1)
+        rep.add_model_check('ExecEnum[%s] simulate num=%d depth=%d %s' % (name, sim[0], sim[1], ' '.join(invariants)), res)
+    else:
+        res = core.run_tlc('ExecEnum', exec_cfg(consts, invariants), wd, timeout=3000)
+        rep.add_model_check('ExecEnum[%s] %s' % (name, ' '.join(invariants)), res)
     out = []
+    seen = set()
     for line in res['out'].splitlines():
         if line.startswith('<<"PROG", '):
+            if line in seen:
+                continue
+            seen.add(line)
             s = line[len('<<"PROG", '):].rstrip()
             # "<json string>", nv, accept, nq>>
             body, nv, acc, nq = s[:-2].rsplit(', ', 3)
@@ -114,11 +129,13 @@ def main(prop, tier):
     wd = core.workdir(prop)
     jobs = []
     for conf in spec['conf']:
-        for name, consts, budget in CONF[conf][tier]:
+        for entry in CONF[conf][tier]:
+            name, consts, budget = entry[:3]
+            sim = entry[3] if len(entry) > 3 else None
             if prop == 'C15':
                 budget = max(500, budget // 4)
             inv = ('VisitsWellFormed',) + (('NormPreserved',) if conf == 'gates' and tier == 'quick' and prop == 'C03' else ())
-            items = enumerate_exec(rep, name, consts, wd, inv)
+            items = enumerate_exec(rep, name, consts, wd, inv, sim)
             rep.cov.setdefault('enumerated_programs', {})[name] = len(items)
             if len(items) > budget:
                 items = rng.sample(items, budget)
